@@ -101,16 +101,17 @@ theorem pppoe_ofHeader_headerBytes_exact (p : PPPoE) (h : p.Inv) : PPPoE.ofHeade
 /-- **C03/C04 / PPPoE discovery**: a discovery packet (code ≠ 0, nothing inside, tag list within the 16-bit length field)
     is re-parsed with exactly the same tags in the same order, whatever padding follows the frame -/
 theorem pppoe_reparse_discovery (cx : Ctx) (p : PPPoE) (h : p.Inv) (hcode : p.code ≠ 0) (hsz : p.tagsSize < 65536)
-    (hin : cx.inners = []) (region : Bytes) (hr : p.hdr ≤ region.length) :
+    (hin : cx.inners = []) (region : Bytes) (hr : region.length = p.hdr) (junk : Bytes) :
     ∃ out, p.write cx region = .ok out ∧ out.length = region.length ∧
-      PPPoE.parse out = .ok ({ p with payloadLength := p.tagsSize }, .none) := by
-  have hw := pppoe_write_eq cx p h region hr
-  have hlf : PPPoE.lengthFor cx p = p.tagsSize := by
+      PPPoE.parse (out ++ junk) = .ok ({ p with payloadLength := p.tagsSize }, .none) := by
+  have hw := pppoe_write_eq cx p h region (by omega)
+  have hlf : PPPoE.lengthFor cx p region.length = p.tagsSize := by
     unfold PPPoE.lengthFor
+    simp only [hin, List.isEmpty_nil, Bool.not_true, Bool.or_false, hr, PPPoE.hdr]
     split
-    · exact Nat.mod_eq_of_lt hsz
-    · simp only [hin, List.isEmpty_nil, Bool.not_true, Bool.false_eq_true, if_false]; omega
-  have hwr : PPPoE.written cx p = { p with payloadLength := p.tagsSize } := by simp [PPPoE.written, hlf]
+    · rw [show 6 + p.tagsSize - 6 = p.tagsSize by omega]; exact Nat.mod_eq_of_lt hsz
+    · rename_i hz; simp only [decide_eq_true_eq, Nat.not_lt, Nat.le_zero_eq] at hz; omega
+  have hwr : PPPoE.written cx p region.length = { p with payloadLength := p.tagsSize } := by simp [PPPoE.written, hlf]
   rw [hwr] at hw
   clear hwr hlf
   cases p with
@@ -122,19 +123,21 @@ theorem pppoe_reparse_discovery (cx : Ctx) (p : PPPoE) (h : p.Inv) (hcode : p.co
       ⟨h.version, h.type, h.code, h.sessionId, hsz, rfl, h.tags⟩
     have hfl := pppoe_flat_length tags
     simp only [PPPoE.hdr] at hr hw
+    have hdn : region.drop (6 + PPPoE.tagsLen tags) = [] := List.drop_eq_nil_of_le (by omega)
+    rw [hdn, List.append_nil] at hw
     refine ⟨_, hw, ?_, ?_⟩
-    · simp only [List.length_append, List.length_drop, pppoe_headerBytes_length, hfl]; omega
+    · simp only [List.length_append, pppoe_headerBytes_length, hfl]; omega
     · rw [List.append_assoc, pppoe_parse_hdr _ _ (pppoe_headerBytes_length _), pppoe_ofHeader_headerBytes_exact _ hinv1]
       have hc0 : ((c == 0) = false) := by simpa using hcode
-      have hrs : ¬ (tags.flatMap PPPoE.tagBytes ++ region.drop (6 + PPPoE.tagsLen tags)).length < PPPoE.tagsLen tags := by
+      have hrs : ¬ (tags.flatMap PPPoE.tagBytes ++ junk).length < PPPoE.tagsLen tags := by
         simp only [List.length_append, hfl]; omega
       simp only [hc0, Bool.false_eq_true, if_false, hrs]
       rw [pppoe_parseTags_roundtrip tags h.tags _ _ (by omega), pppoe_foldl_addTag]
       simp
 
-/-- **C03/C04 / PPPoE session**: a session packet (code 0, no tags) gets its payload length from the inner PDU
-    (fix of DESIGN §7 #20) and re-parses to the same header with exactly the inner bytes as payload, whatever padding
-    follows the frame -/
+/-- **C03/C04 / PPPoE session**: a session packet (code 0, no tags) gets its payload length from what follows the header
+    (DESIGN §7 #20) and re-parses to the same header with exactly the inner bytes as payload, whatever padding follows
+    the frame -/
 theorem pppoe_reparse_session (cx : Ctx) (p : PPPoE) (h : p.Inv) (hcode : p.code = 0) (hnt : p.tags = [])
     (hn : cx.innerSize < 65536) (region : Bytes) (hr : region.length = 6 + cx.innerSize) (junk : Bytes) :
     ∃ out, p.write cx region = .ok out ∧ out.length = region.length ∧
@@ -143,13 +146,14 @@ theorem pppoe_reparse_session (cx : Ctx) (p : PPPoE) (h : p.Inv) (hcode : p.code
   have hts : p.tagsSize = 0 := by rw [h.size, hnt]; rfl
   have hhdr : p.hdr = 6 := by simp [PPPoE.hdr, hts]
   have hw := pppoe_write_eq cx p h region (by omega)
-  have hlf : PPPoE.lengthFor cx p = cx.innerSize := by
+  have hlf : PPPoE.lengthFor cx p region.length = cx.innerSize := by
     unfold PPPoE.lengthFor
-    simp only [hts, Nat.lt_irrefl, if_false]
+    simp only [hts, Nat.lt_irrefl, decide_false, Bool.false_or, hr]
     by_cases he : cx.inners.isEmpty = true
     · simp [he, ctx_innerSize_of_isEmpty cx he]
-    · simp only [he, Bool.not_false, if_true]; exact Nat.mod_eq_of_lt hn
-  have hwr : PPPoE.written cx p = { p with payloadLength := cx.innerSize } := by simp [PPPoE.written, hlf]
+    · simp only [he, Bool.not_false, if_true]
+      rw [show 6 + cx.innerSize - 6 = cx.innerSize by omega]; exact Nat.mod_eq_of_lt hn
+  have hwr : PPPoE.written cx p region.length = { p with payloadLength := cx.innerSize } := by simp [PPPoE.written, hlf]
   rw [hwr, hhdr] at hw
   clear hwr hlf hhdr
   cases p with
